@@ -348,7 +348,7 @@ class Assembler:
                 continue
             # ---- explicit renames (R5/R7)
             hit = False
-            if t.kind == IDENT or t.text == "&":
+            if t.kind == IDENT or t.text in ("&", "("):
                 for seq, dst in renames:
                     n = len(seq)
                     if k + n <= b and [v.text(q) for q in range(k, k + n)] == seq and not (k > a and v.is_p(k - 1, "::")):
